@@ -7,7 +7,12 @@ package main
 //                      this same harness a second time with `go build -overlay` (relay.go and
 //                      buffer.go rewritten by go/cmd/overlay: a seeded yield/sleep in front of
 //                      every atomic, lock, channel and buffer operation; /repo untouched) and
-//                      runs group "relay_inner" of that binary; results are merged.
+//                      runs group "relay_inner" of that binary twice; results are merged:
+//                      pass 1 perturbation only; pass 2 perturbation + TRACE VALIDATION
+//                      (VERIF_VL=1: the overlay's wrappers log one event per synchronisation
+//                      operation executed, go/cmd/overlay/vl.go; every run becomes a case
+//                      `relay_trace` that the extracted Relay.rv_run must replay event by event
+//                      and whose final logs must equal the bytes the writers received).
 // group "relay_inner": the scenarios only (what the overlay binary executes).
 //
 // ORACLE (per direction, schedule independent): the bytes the opposite writer received are
@@ -37,6 +42,11 @@ import (
 
 	"github.com/trzsz/trzsz-go/trzsz"
 )
+
+// Trace validation hooks: set by c13_vl.go (build tag c13overlay), which only the overlay
+// build of this harness compiles (the functions exist only in the overlay's helper file).
+var c13VlDump func(*trzsz.TrzszRelay) ([]string, bool)
+var c13VlRelease func(*trzsz.TrzszRelay)
 
 func init() {
 	groups["relay"] = genC13Relay
@@ -322,6 +332,11 @@ type c13Run struct {
 	abort     atomic.Bool
 	stats     map[string]int
 	mu        sync.Mutex
+	desc      string   // plan of the run (for the evidence)
+	trace     []string // events logged by the overlay build (VERIF_VL=1), in real order
+	traceOver bool
+	gotS      []byte // what the two writers had received when the trace was taken
+	gotC      []byte
 }
 
 func (r *c13Run) settle() time.Duration {
@@ -361,15 +376,15 @@ const c13Lower = "abcdefghijklmnopqrstuvwxyz "
 const c13Upper = "ABCDEFGHIJKLMNOPQRSTUVWXYZ_"
 
 type c13Transfer struct {
-	outcome   string // confirm cancel badact badcfg
-	id        string // 13 digit unique id ending in 00
-	act, cfg  []byte
-	endBy     string // server client ctrlc
-	exitLine  []byte
-	nConfirm  int // number of confirmed handshakes up to and including this one
-	nActOK    int // number of rewritten ACT lines expected on the server side so far
-	nFailSrv  int // number of FAIL lines expected on the server side so far
-	nFailCli  int
+	outcome  string // confirm cancel badact badcfg
+	id       string // 13 digit unique id ending in 00
+	act, cfg []byte
+	endBy    string // server client ctrlc
+	exitLine []byte
+	nConfirm int // number of confirmed handshakes up to and including this one
+	nActOK   int // number of rewritten ACT lines expected on the server side so far
+	nFailSrv int // number of FAIL lines expected on the server side so far
+	nFailCli int
 }
 
 func (r *c13Run) clientWrite(b []byte) {
@@ -423,7 +438,7 @@ func c13RunOne(seed int64, idx int, perturbed bool) (*c13Run, []map[string]strin
 	sOutR, sOutW := io.Pipe()
 	r.cw, r.sw = cInW, sOutW
 	r.cOut, r.sIn = newC13Sink(), newC13Sink()
-	_ = trzsz.NewTrzszRelay(cInR, r.cOut, r.sIn, sOutR, trzsz.TrzszOptions{})
+	relay := trzsz.NewTrzszRelay(cInR, r.cOut, r.sIn, sOutR, trzsz.TrzszOptions{})
 
 	// plan
 	nT := 1 + rng.Intn(3)
@@ -488,6 +503,7 @@ func c13RunOne(seed int64, idx int, perturbed bool) (*c13Run, []map[string]strin
 		r.trig = append(r.trig, [2]string{t.id[:11] + "20:0#R", t.id + ":0"})
 		plan = append(plan, t)
 		r.count("outcome:" + t.outcome)
+		r.desc += " " + t.outcome + "/" + t.endBy
 	}
 
 	var wg sync.WaitGroup
@@ -697,7 +713,7 @@ func c13RunOne(seed int64, idx int, perturbed bool) (*c13Run, []map[string]strin
 	var viol []map[string]string
 	report := func(side, why string) {
 		viol = append(viol, map[string]string{"key": "relay-" + side + "-" + r.id,
-			"what": fmt.Sprintf("relay run %s: %s-side writer did not receive the input with only the handshake line replaced: %s", r.id, side, why),
+			"what":   fmt.Sprintf("relay run %s: %s-side writer did not receive the input with only the handshake line replaced: %s", r.id, side, why),
 			"detail": fmt.Sprintf("client chunks %s | server chunks %s | serverIn got %s | clientOut got %s", hxs(r.cChunks), hxs(r.sChunks), hx(r.sIn.snapshot()), hx(r.cOut.snapshot()))})
 	}
 	if !ok1 {
@@ -705,6 +721,22 @@ func c13RunOne(seed int64, idx int, perturbed bool) (*c13Run, []map[string]strin
 	}
 	if !ok2 {
 		report("client", why2)
+	}
+	if c13VlDump != nil {
+		// the trace is taken when the relay is quiet: same events and same bytes at the writers
+		// over two consecutive looks (trailing steps that have not happened yet are harmless:
+		// every prefix of a path is a path)
+		var last int = -1
+		for i := 0; i < 100; i++ {
+			ev, over := c13VlDump(relay)
+			gs, gc := r.sIn.snapshot(), r.cOut.snapshot()
+			if len(ev) == last && bytes.Equal(gs, r.gotS) && bytes.Equal(gc, r.gotC) {
+				break
+			}
+			last, r.trace, r.traceOver, r.gotS, r.gotC = len(ev), ev, over, gs, gc
+			time.Sleep(3 * time.Millisecond)
+		}
+		c13VlRelease(relay)
 	}
 	if !desync && ok1 && ok2 {
 		cInW.Close()
@@ -756,6 +788,22 @@ func c13RunAll(c *ctx, perturbed bool, n int) {
 			for k, v := range r.stats {
 				c.stats[pre+k] += v
 			}
+			desc := fmt.Sprintf("relay run %s:%s | %d client chunks, %d server chunks", r.id, r.desc, len(r.cChunks), len(r.sChunks))
+			if c13VlDump != nil {
+				// trace validation: the model must replay what the relay threads did, and end with
+				// the bytes the real writers received
+				c.count("traces_validated_against_impl")
+				c.stats["trace:events"] += len(r.trace)
+				if r.traceOver {
+					c.violate("relay-trace-overflow-"+r.id, "the relay logged more events than the in-memory log holds", desc)
+				}
+				if len(r.trace) == 0 {
+					c.violate("relay-trace-empty", "the overlay build logged no event for a relay run: trace logging did not run", desc)
+				}
+				c.emit(true, "relay_trace", "ok:"+hx(r.gotS)+":"+hx(r.gotC)+":-", "0", hxs(r.cChunks), hxs(r.sChunks), strings.Join(r.trace, " "))
+			} else {
+				c.note(true, desc)
+			}
 			for _, v := range viol {
 				c.violate(v["key"], v["what"], v["detail"])
 			}
@@ -766,7 +814,23 @@ func c13RunAll(c *ctx, perturbed bool, n int) {
 
 func genC13RelayInner(c *ctx) {
 	c.sample = []string{}
-	c13RunAll(c, os.Getenv("C13_PERTURBED") == "1", c.pick(800, 8000))
+	if os.Getenv("C13_SCHED") == "1" { // pass 3: schedules found on the model, replayed (c13_reset.go)
+		if c13VlDump == nil || c13VlSchedule == nil || os.Getenv("VERIF_VL") != "1" {
+			panic("c13: C13_SCHED=1 needs the logging overlay build and VERIF_VL=1")
+		}
+		c13SchedAll(c, os.Getenv("C13_PERTURBED") == "1")
+		return
+	}
+	n := c.pick(800, 8000)
+	if os.Getenv("VERIF_VL") == "1" {
+		if c13VlDump == nil {
+			panic("c13: VERIF_VL=1 but this binary was not built with the logging overlay (-tags c13overlay)")
+		}
+		n = c.pick(500, 4000)
+	} else {
+		c13VlDump = nil
+	}
+	c13RunAll(c, os.Getenv("C13_PERTURBED") == "1", n)
 	if f := os.Getenv("VERIF_VP_COUNT_FILE"); f != "" {
 		if b, err := os.ReadFile(f); err == nil {
 			n := 0
@@ -782,6 +846,10 @@ func genC13Relay(c *ctx) {
 		c13Sequential(c, i)
 	}
 	c13RunAll(c, false, c.pick(400, 4000))
+	// the reset guard, direct scenario: a stale reset request behind a slow server (c13_reset.go)
+	for k, n := 0, c.pick(8, 48); k < n; k++ {
+		c13LateResetPlain(c, k, k%4, (k/4)%2 == 1, 5*time.Millisecond)
+	}
 	if c.sample == nil { // no model evaluations in this group: describe the runs instead
 		c.sample = []string{"scripted relay runs judged by the direct conservation oracle (see input_distribution: plain:* and perturbed:*)"}
 	}
@@ -821,30 +889,97 @@ func genC13Relay(c *ctx) {
 	}
 	run(goDir, nil, "go", "build", "-o", filepath.Join(tmp, "overlay"), "./cmd/overlay")
 	run(goDir, nil, filepath.Join(tmp, "overlay"), filepath.Join(repo, "trzsz"), tmp, "relay.go", "buffer.go")
-	run(goDir, nil, "go", "build", "-tags", "verif", "-overlay", filepath.Join(tmp, "overlay.json"), "-o", filepath.Join(tmp, "corr_overlay"), "./cmd/corr")
-	cases, stats := filepath.Join(tmp, "cases"), filepath.Join(tmp, "stats")
-	vpSeed := c.rng.Int63()
-	run(tmp, []string{"C13_PERTURBED=1", fmt.Sprintf("VERIF_VP_SEED=%d", vpSeed), "VERIF_VP_COUNT_FILE=" + filepath.Join(tmp, "vpcount")}, filepath.Join(tmp, "corr_overlay"),
-		"relay_inner", fmt.Sprint(vpSeed%1000000007), c.tier, cases, stats)
-	js, err := os.ReadFile(stats)
-	if err != nil {
-		panic(err)
+	run(goDir, nil, "go", "build", "-tags", "verif,c13overlay", "-overlay", filepath.Join(tmp, "overlay.json"), "-o", filepath.Join(tmp, "corr_overlay"), "./cmd/corr")
+	if pts, err := os.ReadFile(filepath.Join(tmp, "points.txt")); err == nil {
+		for _, l := range strings.Split(string(pts), "\n") {
+			if f := strings.Split(l, "\t"); len(f) == 4 {
+				if f[3] == "?" {
+					c.stats["trace:points_outside_model"]++
+				} else {
+					c.stats["trace:points_logged"]++
+				}
+			}
+		}
 	}
-	var st struct {
-		Distribution map[string]int      `json:"distribution"`
-		Violations   []map[string]string `json:"violations"`
-	}
-	if err := json.Unmarshal(js, &st); err != nil {
-		panic(err)
-	}
-	for k, v := range st.Distribution {
-		c.stats[k] += v
-	}
-	for _, v := range st.Violations {
-		c.violate(v["key"], v["what"], v["detail"]+fmt.Sprintf(" | VERIF_VP_SEED=%d", vpSeed))
-	}
-	if st.Distribution["vp:points_hit"] == 0 {
-		c.violate("relay-overlay-inert", "the overlay build executed no perturbation point: schedule perturbation did not run", "")
+	// pass 1: schedule perturbation only (yield/sleep points, no logging, no extra
+	// synchronisation); pass 2: perturbation + trace logging, every run replayed on the model
+	// pass 3: the schedules the model needs the reset guard for, replayed through the scripted
+	// scheduler of the overlay (c13_reset.go)
+	drv := "C13_DRIVER=" + filepath.Join(filepath.Dir(goDir), "ocaml", "driver")
+	for pass, env := range [][]string{{"C13_PERTURBED=1"}, {"C13_PERTURBED=1", "VERIF_VL=1"}, {"C13_PERTURBED=1", "VERIF_VL=1", "C13_SCHED=1", drv}} {
+		cases, stats := filepath.Join(tmp, fmt.Sprintf("cases%d", pass)), filepath.Join(tmp, fmt.Sprintf("stats%d", pass))
+		vpSeed := c.rng.Int63()
+		// the relay under test may panic (a worker flushing into a channel the readers have
+		// closed): that ends the inner process; it is reported, the other passes still run
+		inner := exec.Command(filepath.Join(tmp, "corr_overlay"), "relay_inner", fmt.Sprint(vpSeed%1000000007), c.tier, cases, stats)
+		inner.Dir = tmp
+		inner.Env = append(append(os.Environ(), env...), fmt.Sprintf("VERIF_VP_SEED=%d", vpSeed), "VERIF_VP_COUNT_FILE="+filepath.Join(tmp, "vpcount"))
+		if out, err := inner.CombinedOutput(); err != nil {
+			txt := string(out)
+			if i := strings.Index(txt, "panic:"); i >= 0 {
+				txt = txt[i:]
+			}
+			if len(txt) > 1500 {
+				txt = txt[:1500]
+			}
+			c.violate(fmt.Sprintf("relay-inner-crash-pass%d", pass+1), "the overlay build of the relay harness died in pass "+fmt.Sprint(pass+1)+" (the relay panicked or the harness failed): "+err.Error(),
+				txt+fmt.Sprintf(" | VERIF_VP_SEED=%d", vpSeed))
+			continue
+		}
+		js, err := os.ReadFile(stats)
+		if err != nil {
+			panic(err)
+		}
+		var st struct {
+			Evaluations  int                 `json:"evaluations"`
+			Nontrivial   int                 `json:"distinct_nontrivial"`
+			Samples      []string            `json:"samples"`
+			Distribution map[string]int      `json:"distribution"`
+			Violations   []map[string]string `json:"violations"`
+		}
+		if err := json.Unmarshal(js, &st); err != nil {
+			panic(err)
+		}
+		pre := ""
+		if pass == 1 {
+			pre = "traced:"
+		}
+		for k, v := range st.Distribution {
+			if strings.HasPrefix(k, "perturbed:") {
+				k = pre + k
+			}
+			if strings.HasPrefix(k, "fn:") {
+				continue // counted again by the emit below
+			}
+			c.stats[k] += v
+		}
+		for _, v := range st.Violations {
+			c.violate(v["key"], v["what"], v["detail"]+fmt.Sprintf(" | VERIF_VP_SEED=%d", vpSeed))
+		}
+		if pass < 2 && st.Distribution["vp:points_hit"] == 0 {
+			c.violate("relay-overlay-inert", "the overlay build executed no perturbation point: schedule perturbation did not run", "")
+		}
+		// the model lines of the inner run become cases of this group; its other executions
+		// (runs judged by the direct oracle only) count as evaluations
+		lines := 0
+		if b, err := os.ReadFile(cases); err == nil {
+			for _, l := range strings.Split(string(b), "\n") {
+				f := strings.Split(l, "\t")
+				if len(f) < 4 || f[len(f)-2] != "=>" {
+					continue
+				}
+				lines++
+				c.emit(true, f[0], f[len(f)-1], f[1:len(f)-2]...)
+			}
+		}
+		c.n += st.Evaluations - lines
+		c.nontrivial += st.Nontrivial - lines
+		if pass == 1 {
+			if lines == 0 || st.Distribution["traces_validated_against_impl"] != lines {
+				c.violate("relay-trace-inert", "the logging overlay produced no trace to validate", fmt.Sprintf("%d runs, %d trace lines", st.Distribution["perturbed:runs"], lines))
+			}
+			c.sample = append(c.sample, st.Samples...)
+		}
 	}
 }
 
